@@ -5,6 +5,7 @@ CFG = {
     "theorems": [
         "Leptos.Reactive.C09_effect_double_run_witness",
         "Leptos.Reactive.C09_run_justified_full_old_false",
+        "Leptos.Reactive.C09_run_justified_full",
         "Leptos.Reactive.C09_run_justified",
         "Leptos.Reactive.C09_memo_run_justified",
     ],
@@ -20,15 +21,15 @@ CFG = {
     "assumptions": ["Effect::new only (watch / RenderEffect / ImmediateEffect share EffectInner but are not separately driven yet)"],
     "manifest": {
         "category": "proof",
-        "text": "PROVED: C09_run_justified - for every well-formed program of signals, memos and effects with tracked reads, every history (writes incl. equal values, reads, "
+        "text": "PROVED: C09_run_justified_full - for every well-formed program of signals, memos and effects (tracked AND untracked reads), every history (writes incl. equal values, reads, "
                 "polls in any order, pause/resume/dispose) no memo or effect body ever runs unless it is its first run or a tracked input of its previous run has a new "
                 "version (signal written / memo recomputed to an unequal value): invariant InvR + big-step lemma upd_ok + effect lemmas (Proofs/Reactive*.lean, no sorry, "
                 "axioms propext/Classical.choice/Quot.sound). The statement was FALSE of the code as found (kernel-checked witness C09_effect_double_run_witness, replayed on "
                 "the real Effect); the defect was REPAIRED by /repo commit 4084efd and the theorem is about the repaired scheduler; the witness stays as a regression theorem "
-                "about the pre-repair model (runOld). Open: programs with `untrack` reads (C09_run_justified_full). The model is tied to reactive_graph by differential "
+                "about the pre-repair model (runOld). The model is tied to reactive_graph by differential "
                 "correspondence of per-op run counts on generated programs, histories and polling orders; every real invocation is checked against the justification oracle.",
         "design_ref": "DESIGN.md §7 C09",
-        "note": "hand-written model validated by correspondence; theorem proved for tracked reads (memos and effects); untracked reads open",
+        "note": "hand-written model validated by correspondence; full theorem proved",
         "technique": "Lean 4 proof (invariant + induction over histories and schedules) + regression witness + differential correspondence",
     },
 }
